@@ -366,7 +366,15 @@ def returns(mir, body, env0, call_oracle, field_oracle=None, depth=3):
                 return ('cf-break', 'none')
             return UNKNOWN
         if nm.endswith('::from_residual'):
-            return vals[0] if vals else UNKNOWN
+            v = vals[0] if vals else UNKNOWN
+            if v is UNKNOWN:
+                # propagating a residual always yields the failure form of the returned type
+                full = callee_name(t) or ''
+                if full.startswith('<std::result::Result'):
+                    return ('err', UNKNOWN)
+                if full.startswith('<std::option::Option'):
+                    return 'none'
+            return v
         if nm == 'std::cmp::Ordering::reverse' and vals:
             v = vals[0]
             if isinstance(v, tuple) and len(v) >= 3 and v[0] == 'adt' and v[1] == 'Ordering':
